@@ -10,6 +10,9 @@
      c2m <name> <hex C source> c2mir_compile of a C translation unit
      file <name> <hex text>    write a header into this script's private include directory
      c2mx <name> <hex>         c2mir_compile of a unit with a C error: must return 0 (diagnosed), everything stays usable
+     c2mt <name> <hex>         c2mir_compile of a unit of a foreign corpus: accepted or diagnosed, both are fine (only what
+                               the compilation does to memory is observed); system headers are searched as the compiler
+                               does by default
      c2mo <name> <opts> <hex>  c2mir_compile with options; <opts> = '-' or a comma list of
                                Dname=def | Dname | Uname (macro commands), I (add the private include directory),
                                E (prepro_only into a sink), S (syntax_only), asm | obj (module also output / written
@@ -395,6 +398,18 @@ static int api_exec (struct api *a, const char *line) {
       api_outf (a, "X C2MFAIL %s", s1);
       return -1;
     }
+  } else if (strcmp (cmd, "c2mt") == 0) {
+    struct c2mir_options ops;
+    char *src = api_unhex (rest + strlen (s1) + 1);
+    int ok;
+    memset (&ops, 0, sizeof (ops));
+    ops.message_file = a->null_file;
+    ops.module_num = a->nloaded + 100 * (size_t) a->id;
+    a->src = src;
+    a->src_pos = 0;
+    ok = c2mir_compile (a->ctx, &ops, api_getc, a, s1, NULL);
+    API_FREE (src);
+    api_outf (a, "R c2mt %s %s", s1, ok ? "compiled" : "rejected");
   } else if (strcmp (cmd, "c2mx") == 0) {
     /* a translation unit with a C error: c2mir_compile reports it (to the message sink) and returns 0; the context
        and the compiler stay usable */
